@@ -99,7 +99,7 @@ def rapi_impl(origin, mid, flags, ms, ops, extra):
         if extra["edns"] is not None:
             ev, ef, pl, opts = extra["edns"]
             try:
-                r.add_edns(ev, ef, pl, [dns.edns.GenericOption(c, bytes(d)) for c, d in opts])
+                r.add_edns(ev, ef, pl, [g.mk_option(c, d) for c, d in opts])
                 res.append(0)
             except dns.exception.TooBig:
                 res.append(1)
@@ -197,7 +197,7 @@ def history_impl(am, origin, steps):
             elif kind == 2:
                 ttl, payload, options, pad = st[1]
                 m.use_edns(edns=(ttl >> 16) & 0xFF, ednsflags=ttl, payload=payload,
-                           options=[dns.edns.GenericOption(c, bytes(d)) for c, d in options], pad=pad)
+                           options=[g.mk_option(c, d) for c, d in options], pad=pad)
             elif kind == 3:
                 m.use_edns(False)
             elif kind == 4:
